@@ -194,6 +194,7 @@ def run(ctx):
                               how="one gemclus.gemini.<Class> object evaluated (return_grad=True) on the listed inputs in order")
                 break
     # clipped entries receive zero gradient (closed simplex rows with exact 0/1 entries)
+    how = "gemclus.gemini.<Class>(ovo, epsilon, kernel/metric='precomputed').evaluate(P, A, return_grad=True)"
     for cls, ovo in gl.CONFIGS:
         cfg = f"{cls}_{'ovo' if ovo else 'ova'}"
         n, K = 5, 3
@@ -211,4 +212,62 @@ def run(ctx):
         if not (G[0] == 0).all() or not (G[1] == 0).all():
             ctx.violation("entries clipped at the epsilon bounds received a non-zero gradient", "grad",
                           {"config": cfg, "P": P.tolist(), "A": None if A is None else A.tolist()}, actual=G[:2].tolist(), key=f"clipped:{cfg}", how=how)
+        # the same predictions in other memory layouts (column-major, a transposed view, a strided view): the gradient is a function of the
+        # VALUES of P, so it must be the same array of numbers, clipped entries included
+        wide = np.zeros((n, 2 * K)); wide[:, ::2] = P
+        for lname, Pl in (("fortran", np.asfortranarray(P)), ("transposed-view", np.ascontiguousarray(P.T).T), ("strided", wide[:, ::2])):
+            try:
+                gobj = gl.real_gemini(cls, ovo, eps)
+                _, Gl = gobj.evaluate(Pl, A if cls in ("mmd", "wass") else None, return_grad=True)
+            except Exception as e:
+                ctx.violation(f"evaluate raised on a {lname} prediction matrix: {type(e).__name__}: {e}", "grad",
+                              {"config": cfg, "layout": lname, "P": P.tolist()}, key=f"raise-layout:{cfg}", how=how)
+                continue
+            ctx.compared("layout:" + cfg)
+            Gl = np.asarray(Gl, float)
+            if Gl.shape != G.shape or not np.allclose(Gl, G, rtol=1e-9, atol=1e-12 * max(1.0, float(np.abs(G).max()))):
+                ctx.violation(f"the gradient depends on the memory layout of the predictions ({lname}): clipped rows get {Gl[:2].tolist()}", "grad",
+                              {"config": cfg, "layout": lname, "P": P.tolist(), "A": None if A is None else A.tolist()},
+                              expected=G[:2].tolist(), actual=Gl[:2].tolist(), key=f"layout:{cfg}", how=how)
+                break
+    # another objective created in between (with another epsilon) is none of this object's business: score and gradient of the FIRST
+    # object must still be those of its own epsilon
+    for cls, ovo in gl.CONFIGS:
+        cfg = f"{cls}_{'ovo' if ovo else 'ova'}"
+        n, K = int(rs.randint(5, 8)), int(rs.randint(2, 4))
+        P = gl.gen_P(rs, n, K, "soft")
+        sat = gl.gen_P(rs, n, K, "onehot1e-3")
+        P[: n // 2] = sat[: n // 2]
+        A = gl.gen_affinity(rs, n, "rbf" if cls == "mmd" else "euclidean") if cls in ("mmd", "wass") else None
+        g = gl.real_gemini(cls, ovo, eps)
+        decoys = [gl.real_gemini(c2, o2, 1e-2) for c2, o2 in (("tv", False), (cls, ovo))]
+        try:
+            s, G = g.evaluate(P.copy(), A, return_grad=True)
+        except Exception as e:
+            ctx.violation(f"evaluate raised after another objective was created: {type(e).__name__}: {e}", "grad", {"config": cfg, "P": P.tolist()},
+                          key=f"raise-decoy:{cfg}", how=how)
+            continue
+        try:
+            spec = gl.spec_score(cls, ovo, np.clip(P, eps, 1 - eps), A)
+        except RuntimeError:
+            spec = None
+        ctx.compared("decoy:" + cfg)
+        if spec is not None and not core.close(float(s), spec, rtol=c01.score_tol(cls, A) * 10, atol=c01.score_tol(cls, A) * 10):
+            ctx.violation(f"score {float(s)!r} of an object with epsilon={eps:g} after objectives with epsilon=0.01 were created; its definition gives {spec!r}",
+                          "grad", {"config": cfg, "P": P.tolist(), "A": None if A is None else A.tolist(), "decoy_epsilon": 1e-2}, expected=spec, actual=float(s),
+                          key=f"decoy-score:{cfg}", how="g = <Class>(epsilon=1e-12); <Other>(epsilon=1e-2); g.evaluate(P, A, return_grad=True)")
+            continue
+        G = np.asarray(G, float)
+        for _ in range(2):
+            W = rs.randn(n, K)
+            dP = P * (W - (P * W).sum(1, keepdims=True))
+            an = float((G * dP).sum())
+            verdict, rich = judge_direction(g, P, A, W, an, float(s), c01.score_unit(cls, A))
+            if verdict == "mismatch":
+                ctx.violation(f"after objectives with another epsilon were created: <grad, dP> = {an!r} but the score's directional derivative is {rich!r}",
+                              "grad", {"config": cfg, "P": P.tolist(), "A": None if A is None else A.tolist(), "W": W.tolist(), "decoy_epsilon": 1e-2},
+                              expected=rich, actual=an, key=f"decoy-derivative:{cfg}",
+                              how="g = <Class>(epsilon=1e-12); <Other>(epsilon=1e-2); g.evaluate(P, A, return_grad=True)")
+                break
+        del decoys
     return ctx.finish()
